@@ -47,6 +47,10 @@ def setCfg (c : Cfg) (kv : String) : Option Cfg :=
     | "lsm.overlapRightKey" =>
         if v == "maxKey" then some { c with overlapRightKey := .maxKey }
         else if v == "minKey" then some { c with overlapRightKey := .minKey } else none
+    -- shape-pinning facts: only one value is understood (the model visits every ingest table that
+    -- contains the key and writes all versions of a user key into one output table)
+    | "lsm.ingestScanStop" => if v == "prefixMax" then some c else none
+    | "lsm.compactSplitRule" => if v == "userKeyBoundary" then some c else none
     | "db.plainKeyLimit" => do let b ← boolOfString? v; pure { c with plainKeyLimit := b }
     | _ => none
   | _ => none
@@ -119,6 +123,7 @@ def stepD (d : DSt) (toks : List String) : DSt × String :=
       (d, verOut (get d.cfg d.st q) ++ "\t" ++ verOut (pick q d.log))
     | _, _, _ => (d, "badop\t*")
   | ["engine", _] => (d, "ok\t*")
+  | ["opts", _, _] => (d, "ok\t*")
   | ["rotate"] => let s := rotate d.st; ({ d with st := s }, "ok " ++ shape s ++ "\t*")
   | ["flush"] =>
     let s := flush d.st
